@@ -15,5 +15,10 @@ Init == i = 0
 Next == i < Len(Recs) /\ i' = i + 1
 Canonical == i > 0 => FrameOK(Recs[i])
 OracleOK  == i > 0 => EncOK(Recs[i])
-Emit      == i > 0 => PrintT(<<"E", ToJson([i |-> i, b |-> Enc(Recs[i])])>>)
+\* alt: the other byte string the property accepts for this record (Frames!EncAlts), <<>> if there is none
+Emit      == i > 0 => PrintT(<<"E", ToJson([i |-> i, b |-> Enc(Recs[i]),
+                                            alt |-> IF HasAlt(Recs[i]) THEN Enc(AltOf(Recs[i])) ELSE <<>>])>>)
+AltsOK    == i > 0 => /\ Enc(Recs[i]) \in EncAlts(Recs[i])
+                      /\ (HasAlt(Recs[i]) => FrameOK(AltOf(Recs[i])) /\ EncOK(AltOf(Recs[i]))
+                                              /\ Len(Enc(AltOf(Recs[i]))) = Len(Enc(Recs[i])))
 =============================================================================
